@@ -298,7 +298,11 @@ def obligations(tier):
             if not q:
                 for pos in (0, 1):
                     obs.append(Ob('sh_law', timeout=T, pins={'pos': pos, 'style': 0, 'lmin': 2, 'lmax': 2, 'first': first, 'second': second}))
-                obs.append(Ob('sh_law', timeout=T, pins={'pos': 1, 'style': 0, 'lmin': 3, 'lmax': 3, 'first': first, 'second': second}))
+                if first == 0 and second == 0:
+                    for sub in (0, 1, 2):      # the all-safe cell is the largest: split by letter / digit / other safe first character
+                        obs.append(Ob('sh_law', timeout=T, pins={'pos': 1, 'style': 0, 'lmin': 3, 'lmax': 3, 'first': 0, 'second': 0, 'first_sub': sub}))
+                else:
+                    obs.append(Ob('sh_law', timeout=T, pins={'pos': 1, 'style': 0, 'lmin': 3, 'lmax': 3, 'first': first, 'second': second}))
     for hi in range(4):
         obs.append(Ob('int_list_law', timeout=T, pins={'hi': hi}, need_kinds=('ranges',)))
     return obs
